@@ -35,6 +35,20 @@ CLAIMED = {
          "mixed marginals, GHZ / W / Dicke support, symmetry and norm, Werner U(x)U and isotropic U(x)conj(U) invariance, PPT and PSD thresholds of Werner and isotropic states as iff-theorems over ordered fields, list form = scalar form of the bipartite Werner state. "
          "Tie to /repo: every exported constructor compared with the model (exact for integer-valued numerators, zero pattern + 1e-12 otherwise) over dims 2..5, qubit counts 1..5, parameter grids incl. end points; identities re-checked on toqito's arrays with exact rational unitaries.",
          "Trusted: Lean kernel + standard axioms; hand-written models; Python harness. Not proved in Lean (harness only): Horodecki PPT for all a (exact LDL certificates at Pythagorean parameters), MUB unbiasedness (primes 2,3,5), constructors without a model (bb84, trine, gisin, breuer, chessboard, brauer, PBR) checked against identities."),
+ "C04": ("Lean 4 refinement theorems (mirror models of apply_channel / kraus_to_choi / partial_channel / natural_representation / channel_dim = Kraus-sum and Choi specs) + exact correspondence on Gaussian-integer inputs",
+         "Kernel-checked over any commutative star-semiring, any rank and any unequal/rectangular dimensions: every accepted list form denotes the stated Kraus family and evaluates to sum_k A_k X B_k^H; Kraus-to-Choi = sum_ij E_ij (x) Phi(E_ij); "
+         "the Choi branch applied to J(Phi) returns Phi(X); any family with sum vec(A_k)vec(B_k)^H = J acts as J (the contract of choi_to_kraus); partial_channel = id (x) Phi (x) id in Kraus and Choi form; natural representation. "
+         "Tie to /repo: exact equality with the compiled model and with an independent integer oracle on complex non-symmetric Gaussian integers for every (d_in, d_out, rank) grid point and form; choi_to_kraus through its exact defining residual (<= 1e-8 scale).",
+         "Trusted: Lean kernel + standard axioms; hand-written model/spec; Python harness. Not generated (outside the quantifier, see DESIGN.md 11): vector-shaped Choi matrices, Hermitian J on a non-square operator space, flat CP lists with rectangular 2xn dim."),
+ "C05": ("Lean 4 theorems on mirror models of dual_channel / complementary_channel (adjoint identity, double dual, unital iff dual TP, complementary entries, trace, spectrum on pure inputs) + exact correspondence",
+         "Kernel-checked for all dims and list/Choi forms: <Y,Phi(X)> = <Phi*(Y),X>; the Choi-form dual of J(Phi) is J(Phi*); dual of dual; unital iff dual trace-preserving; complementary-channel entries tr(K_i rho K_j^H), trace preservation, and equality of "
+         "characteristic polynomials up to a power of X for Phi(psi psi^H) and its complement. Tie to /repo: exact equality on complex non-symmetric Gaussian integers incl. unequal dims; adjoint identity evaluated exactly on the implementation's outputs; complementary channel on exact rational isometries.",
+         "Trusted: Lean kernel + standard axioms; hand-written model/spec; Python harness."),
+ "C16": ("Lean 4 theorems on mirror models of vec/unvec/tensor/Gram/majorisation/commutant + verified exact deciders and certificate checkers for the predicates + exact correspondence on inputs built to satisfy/violate each predicate by a margin",
+         "Kernel-checked: vec/unvec inverses, vec(AXB) = (B^T (x) A) vec X, tensor associativity and power recursion = iterate, Gram relations, majorisation by partial sums, meaning of every exact decider (yes iff the defining equation holds), soundness of PSD / not-PSD / "
+         "linear (in)dependence / rank certificates, invariance lemmas used by the generators. Tie to /repo: every listed predicate and helper on matrices of size 1..6 built exactly (Gaussian integers, exact rational unitaries) and perturbed by a margin >= 1e-3; verdicts must agree with the Lean decider; "
+         "helper identities by exact equality or exact residuals.",
+         "Trusted: Lean kernel + standard axioms; hand-written deciders as the reading of each documented definition (doc/code disagreements listed in DESIGN.md); Python harness. spark, UPB search rank, total positivity minors: executable elimination without a correctness theorem."),
 }
 PENDING_REASON = "check not built yet in this round (work in progress; see DESIGN.md section 7 for the plan)"
 
